@@ -257,4 +257,32 @@ theorem no_token_401 (file : Rules) (r : Route) (path : Name) (h : AuthHeaders)
 /-- The version document itself needs no credentials. -/
 example : pipeline.respond [] ⟨n!"/", n!"GET", home⟩ n!"/" {} [] = .pass := by decide +kernel
 
+/-! ## where the roles come from (`NoAuthMiddleware`, generated decision) -/
+
+/-- The roles the model gives a request are the ones the middleware's if-chain (translated: `noauthRolesSource`)
+selects: the `X-Roles` header whenever it was SENT - also when it is empty, which then means "no roles" -, otherwise
+`admin` for the user `admin`, otherwise none. -/
+theorem roles_are_the_generated_choice (h : AuthHeaders) (tok : String) (c : Creds)
+    (hc : noauthCreds { h with token := some tok } = some c) :
+    c.roles =
+      match noauthRolesSource h.xRoles.isSome (h.xRoles != some "") ((partitionColon tok).1 == "admin") with
+      | .header => parseRoles (h.xRoles.getD "")
+      | .adminShorthand => parseRoles "admin"     -- the middleware's `['admin']`, joined and parsed back by oslo.context
+      | .noRoles => [] := by
+  simp only [noauthCreds] at hc
+  cases hc
+  cases hx : h.xRoles with
+  | some r => simp [noauthRolesSource]
+  | none =>
+    by_cases hu : (partitionColon tok).1 = "admin"
+    · simp [noauthRolesSource, hu]
+    · simp [noauthRolesSource, hu, parseRoles]
+
+/-- an `X-Roles` header that is present and empty gives no role at all, whoever the user is -/
+theorem empty_roles_header_means_no_roles (h : AuthHeaders) (tok : String) (c : Creds) (hx : h.xRoles = some "")
+    (hc : noauthCreds { h with token := some tok } = some c) : c.roles = [] := by
+  have := roles_are_the_generated_choice h tok c hc
+  rw [this, hx]
+  simp [noauthRolesSource, parseRoles]
+
 end Placement.Props.C16
